@@ -27,7 +27,7 @@ from ..model import AnalysisError
 from ..report import Result, mk_finding
 from .c04_uid import enclosing_loops, find_guard, is_self_table
 from .common import unparse
-from .incidence_rules import check_enc, check_fresh, run_class_with_helpers
+from .incidence_rules import check_enc, check_fresh, check_share, run_class_with_helpers
 
 PROP = "C03"
 FACE_PRODUCERS = {"_subfaces", "powerset", "combinations"}
@@ -44,7 +44,7 @@ def _is_self_call(c, selfn, names=None):
 def run(ctx):
     repo = ctx.repo
     res = Result(PROP)
-    res.rules = ["S-DUP", "S-EMPTY", "S-ID", "S-CLOSE", "S-BOUND", "S-UP", "S-FROZENSET", "S-FACES", "R-EXIT", "R-INC", "R-ATTR", "R-EXC", "R-ONCE", "R-ENC", "U-OWN", "U-COPY", "U-FUNC", "U-PROV", "U-GUARD", "U-BUMP"]
+    res.rules = ["S-DUP", "S-EMPTY", "S-ID", "S-CLOSE", "S-BOUND", "S-UP", "S-FROZENSET", "S-FACES", "R-EXIT", "R-INC", "R-ATTR", "R-EXC", "R-ONCE", "R-SHARE", "R-ENC", "U-OWN", "U-COPY", "U-FUNC", "U-PROV", "U-GUARD", "U-BUMP"]
     res.explanation = (
         "Guard-dominance and must-pass-through queries on the statement CFG of every public SimplicialComplex method that "
         "inserts or removes simplices (per valuation of the bulk-format flags), plus the relational-delta analysis of C01 "
@@ -97,6 +97,7 @@ def run(ctx):
     check_faces(repo, res, sc_methods)
     check_bypass(repo, eng, res, direct, indirect, sc_methods)
     check_enc(ctx, res, PROP, eng)
+    check_share(ctx, res, PROP, "SimplicialComplex")
     check_fresh(ctx, res, PROP, ("SimplicialComplex",))
     return res
 
